@@ -152,6 +152,8 @@ func checkDivGuard(w *World, r *Report, tm *Terms, tree map[*ssa.Function]bool) 
 // priceProvenance: every alternative of the divisor term is a price field of a
 // stored record / message, or a parameter that every caller in the repository
 // binds to such a price (possibly re-parsed from its own String()).
+var depthGuard int
+
 func priceProvenance(w *World, tm *Terms, fn *ssa.Function, v ssa.Value, t *Term) (bool, string) {
 	ok := true
 	for _, alt := range t.Alts() {
@@ -183,6 +185,14 @@ func priceProvenance(w *World, tm *Terms, fn *ssa.Function, v ssa.Value, t *Term
 			}
 			at := tm.OperandAt(tm.Root(s.Parent()), s, args[idx])
 			good, why := priceTerm(w, tm, s.Parent(), args[idx], at, 0)
+			if !good {
+				// handed on from the caller's own parameter: follow one more level of call sites
+				if pp, isP := args[idx].(*ssa.Parameter); isP && depthGuard < 3 {
+					depthGuard++
+					good, why = priceProvenance(w, tm, s.Parent(), pp, at)
+					depthGuard--
+				}
+			}
 			if !good {
 				return false, ""
 			}
